@@ -437,3 +437,32 @@ Proof.
   split; [vm_compute; reflexivity|]. split; [vm_compute; reflexivity|]. split; [vm_compute; reflexivity|].
   eexists. split; [vm_compute; reflexivity|]. split; vm_compute; reflexivity.
 Qed.
+
+(* ---- no silent drop (text after fix 8eb6c19) ----
+   For EVERY file and tables (also inconsistent ones, a truncated file, a lazily decoded mdat): if the writer
+   returns without error, every planned interval of every track was fetched completely (as many full samples as
+   the interval has sample numbers).  The pinned text tested len(fullSamples) == 0 before err != nil: a failed
+   fetch (a read error with -m -lazy) was taken for "no more samples" and the tool went on (refuted below;
+   reproduced on the built tool: a truncated prog_8s.mp4 gives empty segments and exit code 0). *)
+Theorem C11_segmenter_fetches_all : forall opt (f : pfile) (tb : tables) T ivs fes,
+  seg_track opt f tb T ivs = Ok fes -> Forall (fetched f tb) ivs.
+Proof. exact seg_track_fetched. Qed.
+Print Assumptions C11_segmenter_fetches_all.
+
+Theorem C11_segmenter_mux_fetches_all : forall opt (f : pfile) (trs : list strack) nsegs fes,
+  mux_segments opt f trs nsegs = Ok fes ->
+  forall k, (k < nsegs)%nat ->
+  Forall (fun t => exists iv, nth_error (st_ivs t) k = Some iv /\ fetched f (st_tb t) iv) trs.
+Proof. exact mux_segments_fetched. Qed.
+Print Assumptions C11_segmenter_mux_fetches_all.
+
+Definition ex_truncated_file : pfile := mkPfile (firstn 250 (pf_bytes ex_e2e_file)) 8 322 true.
+Theorem C11_fetch_error_swallowed_refuted :
+  exists (f : pfile) (tb : tables) (iv : N * N),
+    C09Spec.consistent tb = true /\ fst iv <= snd iv /\
+    fetch_interval f tb (fst iv) (snd iv) = Err /\ fetch_or_skip_pinned f tb iv = Ok [].
+Proof.
+  exists ex_truncated_file, ex_e2e_tb, (5, 7). split; [vm_compute; reflexivity|]. split; [cbn; lia|].
+  split; vm_compute; reflexivity.
+Qed.
+Print Assumptions C11_fetch_error_swallowed_refuted.
